@@ -11,17 +11,18 @@ import (
 )
 
 // Value is one of:
-//   *smt.Term   bool / integer (bit-vector of the Go width) / string
-//   *Ptr        pointer (nil pointer = (*Ptr)(nil))
-//   *StructV    struct value (immutable)
-//   *ArrayV     array value (immutable)
-//   *SliceV     slice (zero value = nil slice)
-//   *Iface      interface value (T == nil: nil interface)
-//   *Closure    function value ((*Closure)(nil) = nil func)
-//   *MapObj     map (reference; (*MapObj)(nil) = nil map)
-//   *TimeV      time.Time (modelled as an instant)
-//   Tuple       multiple results
-//   *Opaque     value of a type the executor does not look into (dependency internals)
+//
+//	*smt.Term   bool / integer (bit-vector of the Go width) / string
+//	*Ptr        pointer (nil pointer = (*Ptr)(nil))
+//	*StructV    struct value (immutable)
+//	*ArrayV     array value (immutable)
+//	*SliceV     slice (zero value = nil slice)
+//	*Iface      interface value (T == nil: nil interface)
+//	*Closure    function value ((*Closure)(nil) = nil func)
+//	*MapObj     map (reference; (*MapObj)(nil) = nil map)
+//	*TimeV      time.Time (modelled as an instant)
+//	Tuple       multiple results
+//	*Opaque     value of a type the executor does not look into (dependency internals)
 type Value interface{}
 
 type Tuple []Value
